@@ -38,7 +38,8 @@ def flatten(v, conds=()):
     if isinstance(v, Alt):
         out = []
         for g, x in v.alts:
-            out.extend(flatten(x, conds + (norm_cond(g),)))
+            gs = g[1] if isinstance(g, tuple) and len(g) == 2 and g[0] == "all" else (g,)
+            out.extend(flatten(x, conds + tuple(norm_cond(y) for y in gs)))
         return out
     return [(frozenset(conds), v)]
 
